@@ -284,9 +284,12 @@ class C20(Prop):
                         vals = sorted([rng.randint(0, 9) for _ in row], reverse=True); out.append([vals[r - 1] for r in row])
                     return out
                 perms = [rng.sample(range(q), q) for _ in range(3)]; BS = [[0.0] * q for _ in range(q)]
-                for pm in perms:
-                    for i in range(q): BS[i][pm[i]] += 0.25
-                for i in range(q): BS[i][perms[0][i]] += 0.25
+                # weights of the convex combination: quarters, or one dominant permutation next to weights of 1e-10 .. 1e-300 (entries far below every tolerance in the code)
+                tiny = rng.choice([1e-10, 1e-12, 1e-300, 5.5e-17]) if rep % 2 else None
+                wts = [0.25, 0.25, 0.25, 0.25] if tiny is None else [tiny, tiny, 0.0, 1.0 - 2 * tiny]
+                for pm, wq in zip(perms, wts):
+                    for i in range(q): BS[i][pm[i]] += wq
+                for i in range(q): BS[i][perms[0][i]] += wts[3]
                 G = {i: [] for i in range(q)}
                 for u in range(q):
                     for v in range(q):
